@@ -372,30 +372,54 @@ def run(ctx):
     misplaced = [s for s in stmts_of(inner) if isinstance(s, ast.If) and "domination_counter" in text(s.test) and "== 0" in text(s.test)]
     if misplaced:
         ctx.violated("R4", C, where(mod, misplaced[0]), "the 'counter == 0 => first front' test is inside the inner loop: it runs before all pairs containing the member were compared")
-    elif len(zero_ifs) == 1 and outer.body.index(zero_ifs[0]) > pos_inner:
+    elif zero_ifs and all(outer.body.index(z) > pos_inner for z in zero_ifs):
+        # the statements after p's inner loop, path by path: counter == 0 <=> rank F0 and put into the first front list
         zi = zero_ifs[0]
-        t = zi.test
-        okt = isinstance(t, ast.Compare) and feat(t.left) == (pvar, "domination_counter") and isinstance(t.ops[0], ast.Eq) and is_const(t.comparators[0]) and const_value(t.comparators[0]) == 0
-        sets_front = [s for s in zi.body if isinstance(s, ast.Assign) and feat(s.targets[0]) == (pvar, "front_number")]
-        rank_vals = [fe.lin(s.value) for s in sets_front]
-        apps = [c for s in zi.body for c in calls_in(s) if method_call(c) and method_call(c)[1] == "append" and c.args and access_path(c.args[0]) == pvar]
-        dests = [fe.pos(method_call(c)[0]) for c in apps]
-        for s in sets_front:
-            handled_writes.add(id(s))
+        tail = outer.body[pos_inner + 1:]
+        verdicts = []
+        for tp in Enumerator(loop_counts=(0, 1)).function_paths(body_fn(tail, fn.args, zi.lineno)):
+            zero = None
+            other_guard = False
+            for e in tp.events:
+                if e.kind != "guard":
+                    continue
+                o_ = oriented(e.node, lambda n_: feat(n_) == (pvar, "domination_counter"))
+                if o_ is not None and is_const(o_[2]) and const_value(o_[2]) == 0 and o_[1] in (ast.Eq, ast.NotEq):
+                    zero = e.val if o_[1] is ast.Eq else not e.val
+                else:
+                    other_guard = True
+            ranks = [e.node for e in tp.events if e.kind == "stmt" and isinstance(e.node, ast.Assign) and feat(e.node.targets[0]) == (pvar, "front_number")]
+            apps = [c for e in tp.events if e.kind == "stmt" for c in calls_in(e.node) if method_call(c) and method_call(c)[1] == "append" and c.args and access_path(c.args[0]) == pvar]
+            for s_ in ranks:
+                handled_writes.add(id(s_))
+            verdicts.append((zero, other_guard, [fe.lin(s_.value) for s_ in ranks], [fe.pos(method_call(c)[0]) for c in apps], tp))
+        problem = unknown4 = None
+        for zero, og, rv, dests, tp in verdicts:
+            if zero is True and not og:
+                if rv == [(0, 1)] and dests == [(0, 0)]:
+                    continue
+                if len(rv) == 1 and rv[0] is not None and rv[0] != (0, 1):
+                    problem = problem or "a non-dominated member is given front number %s, expected 1" % (rv[0][1],)
+                elif len(dests) == 1 and dests[0] is not None and dests[0] != (0, 0):
+                    problem = problem or "a non-dominated member is put into front list %d, expected the first front list" % dests[0][1]
+                elif not rv or not dests:
+                    problem = problem or "a member whose counter is zero after all comparisons is not given the first front (path [%s])" % tp.describe(4)
+                else:
+                    unknown4 = unknown4 or "first-front assignment / destination list not resolved"
+            elif zero is False and (rv or dests):
+                problem = problem or "a member is put into the first front although its counter is not zero"
+            elif zero is None and (rv or dests):
+                problem = problem or "the first-front test/assignment is not `counter == 0 -> front_number, append to the first front` (%s)" % text(zi.test)
+            elif og and zero is True:
+                unknown4 = unknown4 or "the first-front assignment depends on a further condition"
         if F0 != 1:
             ctx.violated("R4", C, where(mod, zi), "front numbering starts at %r, the property requires the non-dominated members to get front 1" % (F0,))
-        elif not okt:
-            ctx.violated("R4", C, where(mod, zi), "the first-front test/assignment is not `counter == 0 -> front_number, append to the first front` (%s)" % text(t))
-        elif len(sets_front) == 1 and rank_vals == [(0, 1)] and len(apps) == 1 and dests == [(0, 0)]:
-            ctx.holds("R4", C, where(mod, zi), "after p's inner loop: counter == 0 => front 1, member put into the first front list")
-        elif len(sets_front) == 1 and rank_vals[0] is not None and rank_vals[0] != (0, 1):
-            ctx.violated("R4", C, where(mod, zi), "a non-dominated member is given front number %s, expected 1" % (rank_vals[0][1],))
-        elif len(apps) == 1 and dests[0] is not None and dests[0] != (0, 0):
-            ctx.violated("R4", C, where(mod, zi), "a non-dominated member is put into front list %d, expected the first front list" % dests[0][1])
-        elif not sets_front or not apps:
-            ctx.violated("R4", C, where(mod, zi), "the first-front test/assignment is not `counter == 0 -> front_number, append to the first front` (%s)" % text(t))
+        elif problem:
+            ctx.violated("R4", C, where(mod, zi), problem)
+        elif unknown4 or not any(v[0] is True for v in verdicts):
+            ctx.inconclusive("R4", C, where(mod, zi), unknown4 or "first-front test not recognised")
         else:
-            ctx.inconclusive("R4", C, where(mod, zi), "first-front assignment / destination list not resolved")
+            ctx.holds("R4", C, where(mod, zi), "after p's inner loop: counter == 0 => front 1, member put into the first front list")
     elif zero_ifs and outer.body.index(zero_ifs[0]) < pos_inner:
         ctx.violated("R4", C, where(mod, zero_ifs[0]), "the 'counter == 0' test for a member runs before its inner loop: pairs with later members are not yet counted")
     else:
